@@ -56,6 +56,7 @@ func c15Templates() []c15tmpl {
 		{"^@A [1]", L(sym("with-meta"), Vc(I(1)), A), false},
 		{";; @A 5\n(list @A \"@A\")", L(sym("list"), A, S("@A")), false},
 		{";; @Z 10\n;; $Id: job.lisp 1234 $\n(list @Z @A)", L(sym("list"), Z, A), false},
+		{";; $MODULE m.lisp\n(list @A \"@A\")", L(sym("list"), A, S("@A")), false},
 		{"(list @A @B)", L(sym("list"), A, B), true},
 		{"{:x @A :y [@B]}", mp(kw("x"), A, kw("y"), Vc(B)), true},
 		{"(@B @A @B)", L(B, A, B), true},
